@@ -5,6 +5,7 @@ import (
 	"encoding/json"
 	"errors"
 	"fmt"
+	"strings"
 	"sync"
 
 	"github.com/ulikunitz/lz"
@@ -144,6 +145,9 @@ type faultRun struct {
 }
 
 func (r *faultRun) fail(sig, format string, a ...any) {
+	if (r.prop == "C17") != strings.HasPrefix(sig, "counts|") {
+		return // C17 judges the counts and Off under writer faults, C18 everything else
+	}
 	full := r.prop + "|" + sig
 	var cs any
 	rank := int64(r.c.Deviations())<<40 + int64(len(r.s.Want))<<20 + int64(len(r.c.Cs))
@@ -202,6 +206,12 @@ func (r *faultRun) run(c *engine.Chooser) (refused bool) {
 		return false
 	}
 	const maxTry = 12
+	written := int64(0) // bytes the decoder reported as written since Init
+	checkOff := func(name string) {
+		if off := d.VerifBuffer().Off; off != written {
+			r.fail("counts|"+name+"|Off", "after %s (writer faults injected) Off=%d but the calls reported %d bytes written in total", name, off, written)
+		}
+	}
 	for _, op := range r.ops {
 		switch op.Kind {
 		case "WriteBlock":
@@ -214,8 +224,23 @@ func (r *faultRun) run(c *engine.Chooser) (refused bool) {
 				}
 				if k < 0 || k > len(blk.Sequences) || l < 0 || l > len(blk.Literals) {
 					r.fail("WriteBlock|kl-range", "WriteBlock returned k=%d l=%d for %d sequences, %d literals", k, l, len(blk.Sequences), len(blk.Literals))
+					r.fail("counts|WriteBlock|kl-range", "WriteBlock returned k=%d l=%d for %d sequences, %d literals", k, l, len(blk.Sequences), len(blk.Literals))
 					return
 				}
+				// n, k, l must describe exactly what was consumed, also when the writer failed in between
+				base, want := 0, 0
+				for _, q := range blk.Sequences[:k] {
+					base += int(q.LitLen)
+					want += int(q.LitLen) + int(q.MatchLen)
+				}
+				switch {
+				case l < base || (k < len(blk.Sequences) && l != base):
+					r.fail("counts|WriteBlock|l", "WriteBlock returned k=%d l=%d (err %v): the first %d sequences carry %d literal bytes", k, l, err, k, base)
+				case n != want+(l-base):
+					r.fail("counts|WriteBlock|n", "WriteBlock returned n=%d k=%d l=%d (err %v): %d sequences and %d further literals expand to %d bytes", n, k, l, err, k, l-base, want+(l-base))
+				}
+				written += int64(n)
+				checkOff("WriteBlock")
 				if err == nil {
 					break
 				}
@@ -244,6 +269,8 @@ func (r *faultRun) run(c *engine.Chooser) (refused bool) {
 					r.fail("Write|n-range", "Write(%d bytes) returned n=%d", len(p), n)
 					return
 				}
+				written += int64(n)
+				checkOff("Write")
 				if err == nil {
 					if n != len(p) {
 						r.fail("Write|short-nil", "Write(%d bytes) returned n=%d, nil", len(p), n)
@@ -272,6 +299,8 @@ func (r *faultRun) run(c *engine.Chooser) (refused bool) {
 					return
 				}
 				if err == nil {
+					written++
+					checkOff("WriteByte")
 					break
 				}
 				if err != errScriptedWriter {
